@@ -414,4 +414,105 @@ theorem step_hh {cfg : Cfg} {m m' : M} {l : L} (hc : HHC cfg) (hs : isMergeConfl
         show hhSrcs m2 ++ pend m2 = _
         rw [hsrcs, hp']; simp
 
+-- whole runs ------------------------------------------------------------------------
+
+/-- every hunk-header line is followed by a line of its hunk, and the input does not end in one
+(the flag: the previous line was a hunk-header line) -/
+def FollowedG : Bool → List L → Prop
+  | p, [] => p = false
+  | p, l :: rest => (p = true → HunkBodyG l) ∧ FollowedG (isHHLine l) rest
+
+/-- the input indices of the hunk-header lines of `ls`, counted from `k` -/
+def hhIndices (k : Nat) (ls : List L) : List Nat :=
+  ((ls.zipIdx k).filter (fun q => isHHLine q.1)).map (·.2)
+
+theorem hhIndices_cons (k : Nat) (l : L) (ls : List L) :
+    hhIndices k (l :: ls) = (if isHHLine l then [k] else []) ++ hhIndices (k + 1) ls := by
+  unfold hhIndices
+  rw [List.zipIdx_cons, List.filter_cons]
+  split <;> simp
+
+theorem runFrom_hh {cfg : Cfg} (hc : HHC cfg) : ∀ (ls : List L) {m m' : M} {p : Bool},
+    runFrom cfg m ls = .ok m' → isMergeConflict m.st = false → Good m → m.source = .gitDiff →
+    (∀ l ∈ ls, startsWith l.text Generated.Markers.mcBegin = false ∧ (isHHLine l = true → l.commitRe = false)) →
+    (pend m = [] ∨ p = true) → FollowedG p ls →
+    pend m' = [] ∧ hhSrcs m' = hacct m ++ hhIndices m.n ls
+  | [], m, m', p, e, _, _, _, _, hp, hf => by
+    simp only [runFrom] at e; cases e
+    have hp0 : pend m = [] := by
+      rcases hp with h | h
+      · exact h
+      · rw [show p = false from hf] at h; cases h
+    exact ⟨hp0, by simp [hacct, hp0, hhIndices]⟩
+  | l :: ls, m, m', p, e, hs, g, hsrc, hl, hp, hf => by
+    simp only [runFrom] at e
+    split at e
+    · cases e
+    · rename_i m1 e1
+      obtain ⟨hbody, hrest⟩ := hf
+      obtain ⟨hmc, hcr⟩ := hl l (List.mem_cons_self ..)
+      obtain ⟨hs1, g1, hsrc1, hn1, hacc1, hp1⟩ := step_hh hc hs g hsrc hmc hcr (hp.imp id hbody) e1
+      obtain ⟨hp', hsrcs⟩ :=
+        runFrom_hh hc ls e hs1 g1 hsrc1 (fun x hx => hl x (List.mem_cons_of_mem _ hx)) hp1 hrest
+      refine ⟨hp', ?_⟩
+      rw [hsrcs, hacc1, hn1, hhIndices_cons, List.append_assoc]
+
+theorem tailOps_ftl {q : RowKind → Bool} (hpm : Minor q) {cfg : Cfg} : ∀ (ops : List String) {m m' : M},
+    tailOps cfg ops m = .ok m' → ftl q m' = ftl q m
+  | [], m, m', e => by simp only [tailOps] at e; cases e; rfl
+  | op :: rest, m, m', e => by
+    simp only [tailOps] at e
+    split at e
+    · cases e
+    · rename_i m1 e1
+      have h1 : ftl q m1 = ftl q m := by
+        unfold tailOp at e1
+        split at e1
+        · cases e1; exact (FV.refl (p := q) m).flushMP.body
+        · cases e1; exact ((FV.refl (p := q) m).pendingDiffName hpm cfg).body
+        · cases e1; exact (FV.refl (p := q) m).emit.body
+        · cases e1
+      exact (tailOps_ftl hpm rest e).trans h1
+
+/-- **Exactly one hunk-header row per hunk** (whole runs). For every configuration in which the hunk
+header is a row of its own (`HHC`: not raw, not omitted, not color-only, line number shown — the
+default) and every input whose first line identifies a git diff, that opens no merge-conflict
+region, in which no hunk-header line matches the commit regex and every hunk-header line is followed
+by a line of its hunk: the hunk-header rows of delta's output are, in order, exactly one for each
+hunk-header line of the input (their `src` is the list of the indices of those lines). -/
+theorem run_one_header_row_per_hunk {cfg : Cfg} (hc : HHC cfg) {d : L} {ls : List L} {m : M}
+    (hd : detectSource d.text = .gitDiff)
+    (hl : ∀ l ∈ d :: ls, startsWith l.text Generated.Markers.mcBegin = false ∧ (isHHLine l = true → l.commitRe = false))
+    (hf : FollowedG false (d :: ls)) (e : run cfg (d :: ls) = .ok m) :
+    (m.out.filter (fun r => pHH r.kind)).map (·.src) = hhIndices 0 (d :: ls) := by
+  have hout := (run_spec e).2
+  unfold run at e
+  split at e
+  · cases e
+  · rename_i m1 e1
+    have hsame : (timeline (stepInit ({} : M) d) = [] ∧ (stepInit ({} : M) d).st = .unknown ∧
+        (stepInit ({} : M) d).n = 0) ∧ (stepInit ({} : M) d).source = .gitDiff ∧
+        (stepInit ({} : M) d).minus = [] ∧ (stepInit ({} : M) d).plus = [] ∧ (stepInit ({} : M) d).orderOk = true := by
+      unfold stepInit armCounter
+      simp only [hd, if_true]
+      split
+      · split <;> exact ⟨⟨rfl, rfl, rfl⟩, rfl, rfl, rfl, rfl⟩
+      · split <;> exact ⟨⟨rfl, rfl, rfl⟩, rfl, rfl, rfl, rfl⟩
+    obtain ⟨⟨htl0, hst0, hn0⟩, hsrc0, hmin0, hpl0, hord0⟩ := hsame
+    have hidem : stepInit (stepInit ({} : M) d) d = stepInit ({} : M) d := by
+      generalize stepInit ({} : M) d = x at hsrc0
+      unfold stepInit; simp [hsrc0]
+    have hfirst : runFrom cfg (stepInit ({} : M) d) (d :: ls) = .ok m1 := by
+      simp only [runFrom, step] at e1 ⊢
+      rw [hidem]; exact e1
+    have g0 : Good (stepInit ({} : M) d) := ⟨hord0, fun _ => ⟨hmin0, hpl0⟩, fun _ => hpl0⟩
+    have hp00 : pend (stepInit ({} : M) d) = [] := by unfold pend; rw [hst0]
+    have hs0 : isMergeConflict (stepInit ({} : M) d).st = false := by rw [hst0]; rfl
+    obtain ⟨_, hs⟩ := runFrom_hh hc (d :: ls) hfirst hs0 g0 hsrc0 hl (Or.inl hp00) hf
+    have hfin : ftl pHH m = ftl pHH m1 := tailOps_ftl minor_pHH _ e
+    have : (m.out.filter (fun r => pHH r.kind)).map (·.src) = hhSrcs m1 := by
+      rw [← hout]; unfold hhSrcs hhTL; rw [← hfin]; rfl
+    rw [this, hs, hn0]
+    simp [hacct, hhSrcs, hhTL, ftl, htl0, hp00]
+
 end Machine
